@@ -577,3 +577,188 @@ Theorem print_fixpoint shrink level name s sl sq c r s' rest :
 Proof.
   intros Hname Hs Hc Hh E. rewrite text_roundtrip in E by assumption. injection E as <- _. reflexivity.
 Qed.
+
+(* ====================================================================================== *)
+(* ypr_encode() of a whole argument between double quotes (extension instance arguments)   *)
+(* ====================================================================================== *)
+
+Lemma ypr_encode_plain ch :
+  Forall (fun b => b <> 9 /\ b <> 10 /\ b <> 34 /\ b <> 92) ch -> ypr_encode ch = ch.
+Proof.
+  induction 1 as [|b ch (H9 & H10 & H34 & H92) _ IH]; [reflexivity|].
+  unfold ypr_encode in *. cbn [flat_map]. rewrite IH, esc_byte_plain by assumption. reflexivity.
+Qed.
+
+Lemma enc_roundtrip_f bi c r :
+  is_term c = true ->
+  forall s, ychars s -> no_byte 13 s = true ->
+    forall f acc tw,
+      Nat.lt (length (ypr_encode s ++ 34 :: c :: r)) f ->
+      lex_f f QS_DQ bi bi tw (ypr_encode s ++ 34 :: c :: r) acc = Ok (rev acc ++ s, c :: r).
+Proof.
+  intros Hc s Hs.
+  induction Hs as [|ch s Hch Hs IH]; intros H13 f acc tw Hlen.
+  - cbn [ypr_encode flat_map app length] in *. destruct f as [|[|f]]; [slia|slia|].
+    rewrite dq_close by exact Hc. rewrite app_nil_r. reflexivity.
+  - destruct Hch as (Hok & Hne & Hshape).
+    apply no_byte_app in H13. destruct H13 as [H13c H13s]. specialize (IH H13s).
+    rewrite ypr_encode_app, <- app_assoc in Hlen |- *. rewrite app_length in Hlen.
+    assert (Hdef : dqplain (hd 0 ch) -> Forall (fun b => b <> 9 /\ b <> 10 /\ b <> 34 /\ b <> 92) ch ->
+                   lex_f f QS_DQ bi bi tw (ypr_encode ch ++ ypr_encode s ++ 34 :: c :: r) acc =
+                   Ok (rev acc ++ ch ++ s, c :: r)).
+    { intros Hp Hall. rewrite ypr_encode_plain in * by exact Hall.
+      destruct f as [|f]; [destruct ch; [congruence|cbn [length] in Hlen; slia]|].
+      rewrite dq_step_char by assumption. rewrite IH; [rewrite rev_rev_append; reflexivity|].
+      destruct ch; [congruence|]. cbn [length] in Hlen. slia. }
+    destruct Hshape as [Hall|[a ->]].
+    { apply Hdef.
+      - destruct ch as [|x ch]; [congruence|]. inversion Hall; subst. apply plain_dqplain. assumption.
+      - eapply Forall_impl; [|exact Hall]. unfold plain. intros b Hb. tauto. }
+    destruct (N.eq_dec a 13) as [->|N13].
+    { apply no_byte_cons in H13c. destruct H13c as [E _]. congruence. }
+    assert (Hgoal : forall s0, rev (a :: acc) ++ s0 = rev acc ++ [a] ++ s0).
+    { intro s0. cbn [rev app]. rewrite <- app_assoc. reflexivity. }
+    destruct (N.eq_dec a 32) as [->|N32].
+    { cbn [ypr_encode flat_map app length] in *. change (esc_byte 32) with [32] in *. cbn [app length] in *.
+      destruct f as [|f]; [slia|]. rewrite dq_step_space_store. rewrite IH; [rewrite Hgoal; reflexivity|]. slia. }
+    assert (Hesc : forall x, In (x, a) [(110, 10); (116, 9); (34, 34); (92, 92)] -> esc_byte a = [92; x] ->
+                   lex_f f QS_DQ bi bi tw (ypr_encode [a] ++ ypr_encode s ++ 34 :: c :: r) acc =
+                   Ok (rev acc ++ [a] ++ s, c :: r)).
+    { intros x Hin Ee. cbn [ypr_encode flat_map] in *. rewrite Ee in *. cbn [app length] in *.
+      destruct f as [|[|f]]; [slia|slia|].
+      rewrite (dq_step_esc _ _ _ _ _ _ _ _ Hin). rewrite IH; [rewrite Hgoal; reflexivity|]. slia. }
+    destruct (N.eq_dec a 10) as [->|N10]; [apply (Hesc 110); [cbn; auto|reflexivity]|].
+    destruct (N.eq_dec a 9) as [->|N9]; [apply (Hesc 116); [cbn; auto|reflexivity]|].
+    destruct (N.eq_dec a 34) as [->|N34]; [apply (Hesc 34); [cbn; auto|reflexivity]|].
+    destruct (N.eq_dec a 92) as [->|N92]; [apply (Hesc 92); [cbn; auto 6|reflexivity]|].
+    apply Hdef.
+    + cbn [hd]. unfold dqplain. tauto.
+    + constructor; [tauto|constructor].
+Qed.
+
+Theorem encode_roundtrip col s c r :
+  ylexable s = true -> is_term c = true -> no_byte 13 s = true ->
+  lex_qstring col ([34] ++ ypr_encode s ++ [34] ++ c :: r) = Ok (s, c :: r).
+Proof.
+  intros Hs Hc H13. apply ylexable_ychars in Hs. cbn [app]. unfold lex_qstring.
+  apply (enc_roundtrip_f (col + 1) c r Hc s Hs H13 _ [] O). cbn [length]. lia.
+Qed.
+
+(* ====================================================================================== *)
+(* the RFC 3629 encoding of the characters the lexer accepts is lexable                    *)
+(* ====================================================================================== *)
+From LY Require Import Utf8P.
+
+Definition lexer_accepts_char (cp : N) : bool := getutf8_accepts_char cp && is_yangutf8char cp.
+
+Lemma store_ok_encoded cp : lexer_accepts_char cp = true -> store_ok (utf8_encode cp) /\ utf8_encode cp <> [].
+Proof.
+  unfold lexer_accepts_char. intro H. apply andb_true_iff in H. destruct H as [H1 H2].
+  pose proof (getutf8_encode cp H1) as Hg.
+  assert (E : store_char (utf8_encode cp) = Some (utf8_encode cp, [])).
+  { unfold store_char. rewrite Hg, H2. rewrite firstn_all, skipn_all. reflexivity. }
+  destruct (store_char_inv _ _ _ E) as [_ (Hok & Hne & _)]. split; assumption.
+Qed.
+
+Lemma ylexable_f_app_ok ch s : store_ok ch -> ch <> [] ->
+  forall fuel, ylexable_f fuel s = true -> ylexable_f (S fuel) (ch ++ s) = true.
+Proof.
+  intros Hok Hne fuel H. cbn [ylexable_f]. destruct (ch ++ s) as [|x t] eqn:E.
+  - reflexivity.
+  - rewrite <- E, Hok. exact H.
+Qed.
+
+Lemma ylexable_f_mono : forall fuel s, ylexable_f fuel s = true -> ylexable_f (S fuel) s = true.
+Proof.
+  induction fuel as [|f IH]; intros s H; [discriminate|].
+  cbn [ylexable_f] in H. destruct s as [|a s]; [reflexivity|].
+  change (ylexable_f (S (S f)) (a :: s)) with
+    (match store_char (a :: s) with None => false | Some (_, r) => ylexable_f (S f) r end).
+  destruct (store_char (a :: s)) as [[ch r]|]; [apply IH; exact H|discriminate].
+Qed.
+Lemma ylexable_f_le f1 f2 s : (f1 <= f2)%nat -> ylexable_f f1 s = true -> ylexable_f f2 s = true.
+Proof. induction 1 as [|f2 _ IH]; intro H; [exact H|]. apply ylexable_f_mono, IH, H. Qed.
+
+Lemma ylexable_encoded cps :
+  forallb lexer_accepts_char cps = true -> ylexable (flat_map utf8_encode cps) = true.
+Proof.
+  unfold ylexable.
+  induction cps as [|cp cps IH]; intro H; [reflexivity|].
+  cbn [forallb] in H. apply andb_true_iff in H. destruct H as [H1 H2].
+  cbn [flat_map]. destruct (store_ok_encoded cp H1) as [Hok Hne].
+  eapply ylexable_f_le; [|apply (ylexable_f_app_ok _ _ Hok Hne), (IH H2)].
+  rewrite app_length. destruct (utf8_encode cp); [congruence|]. cbn [length]. lia.
+Qed.
+
+(* ====================================================================================== *)
+(* the hypotheses are needed: witnesses                                                    *)
+(* ====================================================================================== *)
+Definition nm_description : bytes := [100;101;115;99;114;105;112;116;105;111;110].
+Definition nm_units : bytes := [117;110;105;116;115].
+Definition nm_default : bytes := [100;101;102;97;117;108;116].
+
+(* description [dq]a NL b[dq] with a blank before the newline: the blank is lost *)
+Lemma trailing_ws_witness :
+  let s := [97; 32; 10; 32; 98] in
+  ylexable s = true /\ no_byte 13 s = true /\ no_pair 10 32 s = false /\ no_pair 32 10 s = false /\
+  print_then_lex false 1 nm_description s false false [59] = Ok ([97; 10; 32; 98], [59]).
+Proof. vm_compute. repeat split. Qed.
+
+(* ... and printing what was read back differs from the first print *)
+Lemma fixpoint_witness :
+  let s := [97; 32; 10; 32; 98] in
+  exists s', print_then_lex false 1 nm_description s false false [59] = Ok (s', [59]) /\
+             ypr_text false 1 nm_description s' false false <> ypr_text false 1 nm_description s false false.
+Proof. exists [97; 10; 32; 98]. split; [vm_compute; reflexivity|]. vm_compute. discriminate. Qed.
+
+(* carriage return: dropped before a newline, an error elsewhere *)
+Lemma cr_witness :
+  ylexable [97; 13; 10; 98] = true /\ rt_hyp false false [97; 13; 10; 98] = false /\
+  no_pair 32 10 [97; 13; 10; 98] = true /\
+  print_then_lex false 1 nm_description [97; 13; 10; 98] false false [59] = Ok ([97; 10; 98], [59]) /\
+  ylexable [97; 13; 98] = true /\
+  print_then_lex false 1 nm_description [97; 13; 98] false false [59] = Err E_CR.
+Proof. vm_compute. repeat split. Qed.
+
+(* single-line layout (units, must, when, default, presence, ...): leading blanks of a continuation
+   line are eaten as indentation, although neither the RFC nor the multi-line layout loses them *)
+Lemma singleline_indent_witness :
+  let s := [97; 10; 32; 32; 98] in
+  ylexable s = true /\ no_byte 13 s = true /\ no_pair 32 10 s = true /\ no_pair 10 32 s = false /\
+  print_then_lex false 1 nm_units s true false [59] = Ok ([97; 10; 98], [59]) /\
+  print_then_lex false 1 nm_description s false false [59] = Ok (s, [59]).
+Proof. vm_compute. repeat split. Qed.
+
+(* single-quoted text with a newline: the blanks printed in front of the continuation line become content *)
+Lemma squote_newline_witness :
+  let s := [97; 10; 98] in
+  ylexable s = true /\ no_byte 10 s = false /\
+  print_then_lex false 1 nm_default s true true [59] = Ok ([97; 10; 32; 32; 32; 98], [59]).
+Proof. vm_compute. repeat split. Qed.
+
+(* carriage return, newline through ypr_encode(): read back as backslash, n *)
+Lemma encode_cr_witness :
+  lex_qstring 4 ([34] ++ ypr_encode [97; 13; 10; 98] ++ [34; 59]) = Ok ([97; 92; 110; 98], [59]).
+Proof. vm_compute. reflexivity. Qed.
+
+(* is_yangutf8char() rejects plane 4 although RFC 7950 allows it *)
+Lemma plane4_witness :
+  is_yang_char 262144 = true /\ getutf8_accepts_char 262144 = true /\ is_yangutf8char 262144 = false /\
+  ylexable (utf8_encode 262144) = false.
+Proof. vm_compute. repeat split. Qed.
+(* apart from plane 4 the coded rule is the RFC rule *)
+Lemma yangutf8char_spec :
+  N_all_below 1114112 (fun c => Bool.eqb (is_yangutf8char c) (is_yang_char c && negb (in_rng 262144 327679 c))) = true.
+Proof. vm_cast_no_check (eq_refl true). Qed.
+
+(* non-vacuity: a text with both quote kinds, a backslash, tabs, an empty line, blanks at the start of a
+   line and at the end of the last line, 2-, 3- and 4-byte characters *)
+Definition example_text : bytes :=
+  [73; 116; 39; 115; 32; 34; 113; 34; 32; 92; 9; 120; 9; 10; 10; 32; 32; 121; 32; 195; 169; 226; 130; 172; 240; 159; 152; 128; 32; 32].
+Lemma example_ok :
+  ylexable example_text = true /\ rt_hyp false false example_text = true /\ rt_hyp true false example_text = false /\
+  print_then_lex false 3 nm_description example_text false false [59] = Ok (example_text, [59]) /\
+  print_then_lex true 0 nm_description example_text false false [32; 123] = Ok (example_text, [123]) /\
+  (let s := [73; 116; 39; 115; 32; 39; 39; 34; 92; 9; 13] in
+   rt_hyp true true s = true /\ print_then_lex false 2 nm_default s true true [59] = Ok (s, [59])).
+Proof. vm_compute. repeat split. Qed.
